@@ -54,8 +54,9 @@ ASSUMPTIONS = [
     'a handler only uses the public request/response API of its own application plus the listed foreign operations',
 ]
 
-OPS = ['nest', 'nest', 'copy', 'copy_mutate', 'new_request', 'new_response', 'new_app', 'new_app_serve', 'new_app_custom_errors']
-STATUS_CHOICES = [200, 201, 202, 203, 206, 299]
+OPS = ['nest', 'nest', 'copy', 'copy_mutate', 'new_request', 'new_response', 'new_app', 'new_app_serve', 'new_app_custom_errors',
+       'new_app_from_config']
+STATUS_CHOICES = [200, 201, 202, 203, 206, 299, 299, '299 Custom phrase', 298, '298 Another phrase']
 
 _TL = threading.local()      # harness-side per-thread call stack and findings
 
@@ -97,6 +98,10 @@ def expected_reads(call):
         'hdr': 'h' + m,
         'cookie': 'c' + m,
         'url_arg': None if call.get('static') else m,
+        'url': 'http://sim.test' + path_of(call) + '?m=q' + m,
+        'fullpath': path_of(call),
+        'script_name': '/',
+        'cfg_limits': (None, 102400, ''),
     }
 
 
@@ -112,6 +117,10 @@ def read_request(app, env):
     out['url_arg'] = rq.url_args.get('m')
     out['environ_is_own'] = rq.environ is env
     out['app_is_own'] = rq.app is app
+    out['url'] = rq.url
+    out['fullpath'] = rq.fullpath
+    out['script_name'] = rq.script_name
+    out['cfg_limits'] = (rq.config.max_body_size, rq.config.max_memfile_size, rq.config.app_name_header)
     return out
 
 
@@ -154,7 +163,7 @@ def check_response(ctx, call, app, when):
     except Exception as e:   # noqa
         ctx.problem('C10:response-read-error', f'{m} {when}: reading app.response raised {type(e).__name__}: {e}')
         return
-    exp = {'status_code': call['status'], 'x_r': 'r' + m, 'cookie': 'k' + m, 'ctype': 'text/plain; charset=UTF-8',
+    exp = {'status_code': int(str(call['status']).split()[0]), 'x_r': 'r' + m, 'cookie': 'k' + m, 'ctype': 'text/plain; charset=UTF-8',
            'n_headers': 3}
     for k, v in exp.items():
         if got[k] != v:
@@ -210,8 +219,11 @@ def serve(ctx, call):
         if r.header('Content-Type') != 'text/html; charset=UTF-8':
             problems.append(f'Content-Type {r.header("Content-Type")!r}')
     else:
-        if r.code != exp_status:
-            problems.append(f'status {r.status!r}, expected {exp_status}')
+        exp_line = exp_status if isinstance(exp_status, str) else {200: '200 OK', 201: '201 Created', 202: '202 Accepted',
+                                                                     203: '203 Non-Authoritative Information',
+                                                                     206: '206 Partial Content'}.get(exp_status, f'{exp_status} Unknown')
+        if r.status != exp_line:
+            problems.append(f'status line {r.status!r}, expected {exp_line!r}')
         if r.header('X-R') != 'r' + m:
             problems.append(f'X-R header {r.header("X-R")!r}, expected {"r" + m!r}')
         cookies = r.header_all('Set-Cookie')
@@ -264,6 +276,11 @@ def do_op(ctx, call, op, app, env):
             ctx.problem('C10:copy-wrong', f'bare Response shows status {rs.status_code!r}')
     elif kind == 'new_app':
         ombott.Ombott()
+    elif kind == 'new_app_from_config':
+        # a further application built from this application's configuration object and then configured differently
+        sib = ombott.Ombott(app.config)
+        sib.setup({'max_body_size': 1, 'max_memfile_size': 1, 'app_name_header': 'HTTP_X_APP', 'allow_x_script_name': True})
+        sib.config.max_body_size = 0
     elif kind == 'new_app_custom_errors':
         # a further application with its own error mapping: must not change how the others answer a bad body
         from ombott.request_pkg import errors as rq_errors
